@@ -64,6 +64,8 @@ PROP_MODELS = {
     'C05': ['sqrt', 'mutableseq'],
     'C06': ['sqrt', 'trig', 'mutableseq'],
     'C15': ['sqrt', 'numpy.poly1d', 'mutableseq'],
+    'C11': ['sqrt', 'numpy.poly1d', 'numpy.roots', 'mutableseq'],
+    'C12': ['sqrt', 'numpy.poly1d', 'numpy.roots'],
     'C08': ['sqrt', 'numpy.poly1d', 'numpy.roots', 'mutableseq'],
     'C14': ['numpy.poly1d', 'numpy.small', 'mutableseq'],
     'C09': ['mutableseq'],
